@@ -405,6 +405,10 @@ impl RingBuffer {
         if bytes.len() > self.free() {
             return false;
         }
+        if bytes.is_empty() {
+            // Nothing to copy (and the buffer may have zero capacity).
+            return true;
+        }
 
         // The index of the first available position in the buffer.
         let first_available = (self.start + self.used) % self.buffer.len();
@@ -425,6 +429,10 @@ impl RingBuffer {
     /// buffer.
     pub fn drain(&mut self, out: &mut [u8]) -> usize {
         let bytes_read = min(self.used, out.len());
+        if bytes_read == 0 {
+            // Nothing to copy (and the buffer may have zero capacity).
+            return 0;
+        }
 
         // The number of bytes to copy out between `start` and the end of the buffer.
         let read_before_wraparound = min(bytes_read, self.buffer.len() - self.start);
